@@ -13,14 +13,25 @@ DROP_OPTS = {"job-name", "output", "error"}
 FAULT_EVENTS = {"kill", "fault"}
 
 
+def canon_row(r):
+    """Canonical form of a result row: numeric fields by value (the file is rewritten by resubmit-jobs with another
+    formatting of the same numbers), a missing HPC id as the empty string."""
+    try:
+        return [r[0], str(int(r[1])), r[2], repr(float(r[3])), repr(float(r[4])), "" if r[5] in ("None", "") else str(r[5])]
+    except (ValueError, TypeError, IndexError):
+        return [str(x) for x in r]
+
+
 def encode_event(e, d="out"):
     k = e["e"]
     if e.get("dir", d) != d:
         return None
     if k == "proc":
-        return {"e": k, "pid": e["pid"], "k": e["k"], "nested": e["nested"], "b": e["b"]}
+        fl = e.get("flags", [])
+        return {"e": k, "pid": e["pid"], "k": e["k"], "nested": e["nested"], "b": e["b"],
+                "fl": {"failed": "--no-failed" not in fl, "missing": "--no-missing" not in fl, "successful": "--successful" in fl}}
     if k == "exit":
-        return {"e": k, "pid": e["pid"], "k": e["k"], "code": e["code"], "exc": e["exc"]}
+        return {"e": k, "pid": e["pid"], "k": e["k"], "code": e["code"], "exc": e["exc"], "clock": bool(e.get("clock", False))}
     if k == "cfgbatch":
         return {"e": k, "b": e["b"], "rewrite": e["rewrite"], "jobs": e["jobs"], "hb": e["hb"], "rows": e["rows"]}
     if k == "sbatch":
@@ -35,18 +46,20 @@ def encode_event(e, d="out"):
     if k == "jobexit":
         return {"e": k, "job": e["job"], "rc": e["rc"]}
     if k in ("append", "appended"):
-        return {"e": k, "row": e["row"]}
+        return {"e": k, "row": canon_row(e["row"])}
     if k == "rows":
-        return {"e": k, "proc": e["proc"], "node": e["node"], "ok": e["ok"]}
+        return {"e": k, "proc": [canon_row(r) for r in e["proc"]], "node": [[b, [canon_row(r) for r in rows]] for b, rows in e["node"]],
+                "ok": e["ok"]}
     if k == "collected":
-        return {"e": k, "rows": e["rows"]}
+        return {"e": k, "rows": [canon_row(r) for r in e["rows"]]}
     if k == "status":
         return {x: e[x] for x in ("e", "pid", "sub", "njobs", "nsub", "ndone", "complete", "canceled", "cver", "cverf",
                                   "jver", "jverf", "st", "rem", "ids", "bidx", "marker", "rows")}
     if k == "promote":
         return {x: e[x] for x in ("e", "pid", "host", "ok", "exc", "before", "after", "create")}
     if k == "summary":
-        return {"e": k, "res": e["res"], "missing": e["missing"], "tally": e["tally"]}
+        res = [[r[0], r[1], r[2], repr(float(r[3])), repr(float(r[4])), "" if r[5] in ("None", "") else str(r[5])] for r in e["res"]]
+        return {"e": k, "res": res, "missing": e["missing"], "tally": e["tally"]}
     if k == "squeue":
         return {"e": k, "ok": e["ok"], "pid": e["pid"]}
     if k == "scancel":
